@@ -485,10 +485,24 @@ func (p *C02) WellFormed(sc *scen.Scenario) bool {
 	if !ok {
 		return false
 	}
+	// every destination a call may select is one the world records: the process's own stdout/stderr are not
+	wsAll := model.WritersFromHistory(sc.Setup, len(sc.Setup))
 	chk := func(ops []scen.Op) bool {
 		for i := range ops {
-			if ops[i].Op == "log" && (ops[i].Lvl == model.Panic || ops[i].Lvl == model.Fatal) {
+			if ops[i].Op != "log" {
+				continue
+			}
+			if ops[i].Lvl == model.Panic || ops[i].Lvl == model.Fatal {
 				return false
+			}
+			ws := wsAll[ops[i].L]
+			if ws == nil {
+				return false
+			}
+			for _, w := range append(append([]int{}, ws.Normal...), ws.Error...) {
+				if w < 0 {
+					return false
+				}
 			}
 		}
 		return true
@@ -530,10 +544,20 @@ func (p *C02) Check(sc *scen.Scenario, run *orch.Run, env *orch.Env) []orch.Viol
 	var snap map[int]snapLogger
 	setupLen := len(sc.Setup)
 	nestedToks := relogTokens(sc) // values that log from inside String() may sit in call arguments or in logger attributes
+	// Which goroutine hands a record to the destination is not part of the statement: a logger may let the caller
+	// that is writing anyway take along the records other callers finished meanwhile. With several caller tasks the
+	// writes are therefore attributed to calls by the call token their payload carries, wherever they were observed;
+	// payloads that name no call (blank lines, Println of a non-string) are matched to the calls that expect one.
+	attributed := map[string][]scen.Event{}
 	checkCall := func(ph string, task, i int, op *scen.Op) {
 		o := ops[opKey(ph, task, i+1)]
 		if o == nil || o.Skipped {
 			return
+		}
+		if ws, ok := attributed[opKey(ph, task, i+1)]; ok {
+			c := *o
+			c.Writes = ws
+			o = &c
 		}
 		switch op.Op {
 		case "get_debug_mode":
@@ -630,7 +654,7 @@ func (p *C02) Check(sc *scen.Scenario, run *orch.Run, env *orch.Env) []orch.Viol
 		for _, w := range sortedKeysInt(ids) {
 			evs := byW[w]
 			if len(evs) != exp[w] {
-				add("C02.count", fmt.Sprintf("entry=%s got=%d want=%d%s", op.Entry, min(len(evs), 3), exp[w], mode), "%s(%q, %s) at %s: destination %d saw %d Write calls during the call, expected %d (selected %v)", op.Entry, op.Msg, argShape(op.Args, 0), model.LevelName(op.Lvl), w, len(evs), exp[w], sel)
+				add("C02.count", fmt.Sprintf("entry=%s got=%d want=%d%s", op.Entry, min(len(evs), 3), exp[w], mode), "%s(%q, %s) at %s: destination %d saw %d Write calls for this call, expected %d (selected %v)", op.Entry, op.Msg, argShape(op.Args, 0), model.LevelName(op.Lvl), w, len(evs), exp[w], sel)
 				continue
 			}
 			for _, e := range evs {
@@ -656,6 +680,31 @@ func (p *C02) Check(sc *scen.Scenario, run *orch.Run, env *orch.Env) []orch.Viol
 	for i := range sc.Setup {
 		checkCall("setup", 0, i, &sc.Setup[i])
 	}
+	if len(sc.Tasks) > 1 {
+		attributed = c02Attribute(sc, ops, nestedToks, func(op *scen.Op) (map[int]int, bool) {
+			ls, ok := snap[op.L]
+			ws := model.WritersFromHistory(sc.Setup, setupLen)[op.L]
+			if !ok || ws == nil {
+				return nil, false
+			}
+			switch reg.Admitted(ls.Level, op.Lvl, debug) {
+			case model.Deny:
+				return map[int]int{}, true
+			}
+			sel, sure := ws.Select(reg, op.Lvl)
+			if !sure {
+				return nil, false
+			}
+			exp := map[int]int{}
+			for _, w := range sel {
+				exp[w]++
+			}
+			if reg.Admitted(ls.Level, op.Lvl, debug) == model.Unknown {
+				exp[c02Optional] = 1 // the model does not decide whether the call is admitted: all of it or nothing
+			}
+			return exp, true
+		})
+	}
 	for _, t := range sc.Tasks {
 		for i := range t.Ops {
 			checkCall("task", t.ID, i, &t.Ops[i])
@@ -665,6 +714,154 @@ func (p *C02) Check(sc *scen.Scenario, run *orch.Run, env *orch.Env) []orch.Viol
 		add("C02.terminated", "world", "the world process ended early (exit=%d) stderr=%.300q", run.ExitCode, lastLines(run.Stderr, 300))
 	}
 	return dedupe(out)
+}
+
+// c02Optional marks, in an expectation, a call whose admission the model leaves open.
+const c02Optional = -1 << 20
+
+// c02Attribute distributes the writes observed while the caller tasks ran over the calls of those tasks.
+func c02Attribute(sc *scen.Scenario, ops map[string]*opObs, nestedToks map[string]bool, expect func(*scen.Op) (map[int]int, bool)) map[string][]scen.Event {
+	out := map[string][]scen.Event{}
+	owner := map[string]string{} // call token -> call
+	var anon []string            // calls whose record names no call, in task order
+	blankCall := map[string]bool{}
+	exp := map[string]map[int]int{} // what such a call expects per destination; absent: not decided by the model
+	for _, t := range sc.Tasks {
+		for i := range t.Ops {
+			op := &t.Ops[i]
+			k := opKey("task", t.ID, i+1)
+			out[k] = nil
+			if op.Op != "log" {
+				continue
+			}
+			if op.Tok != "" && op.Kind != "rawargs" && op.Kind != "blank" && len(op.X) == 0 && strings.Contains(op.Msg, op.Tok) {
+				owner[op.Tok] = k
+			} else {
+				anon = append(anon, k)
+				blankCall[k] = isBlank(op.Msg) && len(op.X) == 0 && op.Kind != "rawargs" && op.Lvl == model.Always && strings.Contains(op.Entry, "Print")
+				if op.Tok != "" && owner[op.Tok] == "" {
+					owner[op.Tok] = k // its payload may or may not show the token (a message of arbitrary bytes)
+				}
+				if e, known := expect(op); known {
+					exp[k] = e
+				}
+			}
+		}
+	}
+	type loose struct {
+		e    scen.Event
+		from string
+	}
+	var pool []loose
+	for _, t := range sc.Tasks {
+		for i := range t.Ops {
+			k := opKey("task", t.ID, i+1)
+			o := ops[k]
+			if o == nil {
+				continue
+			}
+			for _, e := range o.Writes {
+				if e.W == c02NestedWriter {
+					out[k] = append(out[k], e)
+					continue
+				}
+				found := map[string]bool{}
+				for _, m := range tokRe.FindAllString(string(e.P), -1) {
+					if !nestedToks[m] {
+						found[m] = true
+					}
+				}
+				switch len(found) {
+				case 0:
+					pool = append(pool, loose{e, k})
+				case 1:
+					for m := range found {
+						if ok, has := owner[m]; has {
+							out[ok] = append(out[ok], e)
+						} else {
+							out[k] = append(out[k], e)
+						}
+					}
+				default:
+					out[k] = append(out[k], e) // pieces of several records: judged where it was seen
+				}
+			}
+		}
+	}
+	// payloads that name no call: first to the call during which they were seen if that call is anonymous too,
+	// then bare newlines to the blank calls and the rest to the other anonymous calls, what is left stays where it was seen
+	taken := make([]bool, len(pool))
+	have := map[string]map[int]int{}
+	give := func(k string, q int) {
+		out[k] = append(out[k], pool[q].e)
+		taken[q] = true
+		if have[k] == nil {
+			have[k] = map[int]int{}
+		}
+		have[k][pool[q].e.W]++
+	}
+	isAnon := map[string]bool{}
+	for _, k := range anon {
+		isAnon[k] = true
+		// what the call has got already through a token that did show in its payload
+		for _, e := range out[k] {
+			if e.W != c02NestedWriter {
+				if have[k] == nil {
+					have[k] = map[int]int{}
+				}
+				have[k][e.W]++
+			}
+		}
+	}
+	needs := func(k string, w int) bool {
+		e, known := exp[k]
+		return known && e[c02Optional] == 0 && have[k][w] < e[w]
+	}
+	may := func(k string, w int) bool {
+		e, known := exp[k]
+		return !known || (e[c02Optional] > 0 && have[k][w] < e[w])
+	}
+	for q := range pool {
+		if isAnon[pool[q].from] && needs(pool[q].from, pool[q].e.W) {
+			give(pool[q].from, q)
+		}
+	}
+	for pass := 0; pass < 3; pass++ {
+		for _, k := range anon {
+			if pass < 2 && blankCall[k] != (pass == 0) {
+				continue
+			}
+			for q := range pool {
+				if _, known := exp[k]; taken[q] || !known || !needs(k, pool[q].e.W) {
+					continue
+				}
+				if bare := string(pool[q].e.P) == "\n"; bare == blankCall[k] || pass == 2 {
+					give(k, q)
+				}
+			}
+		}
+	}
+	for q := range pool {
+		if taken[q] {
+			continue
+		}
+		to := pool[q].from
+		if !(isAnon[to] && may(to, pool[q].e.W)) {
+			for _, k := range anon {
+				if may(k, pool[q].e.W) {
+					to = k // a call the model does not decide: it may have produced this one
+					break
+				}
+			}
+		}
+		taken[q] = true
+		out[to] = append(out[to], pool[q].e)
+		if have[to] == nil {
+			have[to] = map[int]int{}
+		}
+		have[to][pool[q].e.W]++
+	}
+	return out
 }
 
 func min(a, b int) int {
